@@ -175,6 +175,14 @@ Section C01.
   Proof. exact (gen_trilinear_weak_form R rO rI radd rmul rsub ropp Rth V W vadd vscale). Qed.
 End C01.
 
+(* rows index test functions on the CHOSEN side: for an oriented facet set (OrientedBoundary, flag ori per facet) the cell
+   of side 0 is f2t[ori] and the cell of side 1 is f2t[1 - ori] (a negative row index counts from the end), the normal is
+   taken from f2t[ori]; for a plain facet array side s is f2t[s] and the normal comes from f2t[0] *)
+Theorem C01_oriented_side : forall ori : Z, (ori = 0 \/ ori = 1)%Z ->
+  ((gen_oriented_row0 ori) mod 2 = ori /\ (gen_oriented_row1 ori) mod 2 = 1 - ori /\
+   (gen_oriented_normal_row ori) mod 2 = ori /\ gen_plain_row 0 = 0 /\ gen_plain_row 1 = 1 /\ gen_plain_normal_row = 0)%Z.
+Proof. exact gen_oriented_side_spec. Qed.
+
 Print Assumptions C01_coo_bilinear_entries.
 Print Assumptions C01_coo_linear_entries.
 Print Assumptions C01_bilinear_weak_form.
@@ -184,6 +192,7 @@ Print Assumptions C01_linear_weak_form.
 Print Assumptions C01_functional_value.
 Print Assumptions C01_coo_trilinear_entries.
 Print Assumptions C01_trilinear_weak_form.
+Print Assumptions C01_oriented_side.
 
 (* ---------- non-vacuity: 2 cells, Nu = 2 trial functions, Nv = 3 test functions, non-symmetric integrand,
    repeated DOFs, over Z; values are (value, derivative) pairs ---------- *)
